@@ -88,7 +88,7 @@ type fed struct {
 	quiet    bool // faults stopped (final drain)
 	cfg      struct {
 		drop, dup, corrupt, lostWrite int // permille
-		partitions, crashes         bool
+		partitions, crashes           bool
 	}
 	built int
 }
